@@ -38,12 +38,18 @@ func (g *G) graphA(nNodes int, linkBias float64, annotate bool) Graph {
 				continue
 			}
 			k := 1 + g.n(3)
+			if bigInts && g.coin(0.7) {
+				k = 1 // single-valued: every per-value constraint is classical there
+			}
 			var vs []Val
 			seen := map[string]bool{}
 			for j := 0; j < k; j++ {
 				var v Val
 				var key string
-				if g.coin(linkBias) {
+				if bigInts && g.coin(0.75) {
+					v = VI(g.intValue())
+					key = fmt.Sprint("i", *v.I)
+				} else if g.coin(linkBias) {
 					t := g.n(nNodes + 1) // nNodes => dangling link
 					v = VR(nodeId(t))
 					key = "r" + *v.R
@@ -53,7 +59,7 @@ func (g *G) graphA(nNodes int, linkBias float64, annotate bool) Graph {
 						v = VS(g.pick(strPool))
 						key = "s" + *v.S
 					case 1:
-						v = VI(int64(g.n(7) - 2))
+						v = VI(g.intValue())
 						key = fmt.Sprint("i", *v.I)
 					default:
 						v = VB(g.coin(0.5))
@@ -144,3 +150,16 @@ func (g *G) path(depth int) Path {
 	}
 	return Path{Alt: parts}
 }
+
+// integers the graph and the numeric constraints use: small ones, or - when bigInts is on - neighbours of 2^53 and of the
+// int64 limits, which a float64 cannot tell apart
+var bigInts = false
+
+func (g *G) intValue() int64 {
+	if bigInts && g.coin(0.7) {
+		return g.pickInt([]int64{9007199254740991, 9007199254740992, 9007199254740993, 9007199254740994, -9007199254740993, 9223372036854775806, 9223372036854775807, 1000000000000000001, 1000000000000000002})
+	}
+	return int64(g.n(7) - 2)
+}
+
+func (g *G) pickInt(xs []int64) int64 { return xs[g.n(len(xs))] }
